@@ -44,7 +44,8 @@ def run(ctx: core.Ctx) -> int:
         ctx.rule(rid, t)
     prog = scenarios.program(ctx)
     mod = prog.modules["python"]
-    fn = core.need(core.find_func(mod, "assert_valid_covariance"), "python.assert_valid_covariance")
+    fn, _moved = core.find_func_imported(ctx, mod, "assert_valid_covariance")      # the gate may live in common.py and be imported back
+    fn = core.need(fn, "python.assert_valid_covariance")
     ctx.functions.append("python.assert_valid_covariance")
     q = "assert_valid_covariance"
     where = f"{F}:{q}"
